@@ -48,7 +48,14 @@ func concGen(rng *Rng, i int, tier string) (*ConcCase, error) {
 	}
 	c := &ConcCase{World: cc.World, YieldSeed: rng.Next() | 1, Mode: "conc"}
 	seenForeign := map[string]bool{}
+	drop := map[string]bool{}
+	for _, k := range strings.Split(os.Getenv("CONC_DROP"), ",") { // development knob: op kinds left out of the workload
+		drop[k] = true
+	}
 	for _, op := range cc.Ops {
+		if drop[op.Kind] {
+			continue
+		}
 		// a foreign allocation re-sent under another node id is known finding C01-foreign-moved (sequential):
 		// keep the first submission of each foreign key only
 		if op.Kind == "alloc" && op.Foreign {
